@@ -27,7 +27,7 @@ CONSTANTS G,            \* goroutines
           N, M, Tick,   \* first, thereafter, tick
           Times,        \* timestamps an entry may carry (not required to be monotone)
           Levels,       \* subset of {"on", "on2", "off", "oor"}: two enabled levels, a disabled one, out of range
-          Msgs,         \* subset of {"a", "a2", "b"}: a and a2 collide
+          Msgs,         \* subset of {"a", "a2", "b", "c", "d"}: a and a2 collide; c and d sit in buckets next to a's (independent)
           Cores,        \* subset of {"root", "child"}: child = root.With(...)
           InitResetAt,  \* 0 normally; large for the "already open window" configs
           SharedCounts, \* TRUE = code (With shares counters); FALSE = spec mutant
